@@ -1721,6 +1721,11 @@ fn stream_prop(stream: &str) -> Prop {
         "sm_bytes" => Prop::C07,
         "sm_bytes_c13" => Prop::C13,
         "sm_bytes_c08" => Prop::C08,
+        "sm_bytes_c09" => Prop::C09,
+        "sm_bytes_c10" => Prop::C10,
+        "sm_bytes_c11" => Prop::C11,
+        "sm_bytes_c12" => Prop::C12,
+        "sm_bytes_c33" => Prop::C33,
         "sm_c07" | "c07_witness" => Prop::C07,
         "sm_c08" => Prop::C08,
         "sm_c09" => Prop::C09,
